@@ -355,6 +355,46 @@ def check_random(spec):
     if rev != vec:
         problems.append(Problem("C10/random/reverse", "reverse=True is not the inverse"))
     problems += check_applied(spec, shells, a, b, segs, nbasis, ref, MolecularBasis)
+    problems += check_edited_and_omitted(shells, a, b, segs, vec, ref, MolecularBasis)
+    return problems
+
+
+def check_edited_and_omitted(shells, a, b, segs, vec, ref, MolecularBasis):
+    """(1) The same convention *objects* used again after an in-place edit: the conversion follows
+    the labels they hold now (swap of two labels, a sign flip), and an in-place corruption is
+    rejected.  (2) A target dictionary that omits a shell type of the basis is rejected."""
+    problems = []
+    key = max(segs, key=lambda seg: len(a[seg]))
+    target = {k: list(v) for k, v in b.items()}  # these very list objects are edited below
+    basis = MolecularBasis(shells, a, "L2")
+    try:
+        apply_conversion(basis, target, vec)
+        labels = target[key]
+        if len(labels) >= 2:
+            labels[0], labels[-1] = labels[-1], labels[0]
+        labels[0] = labels[0][1:] if labels[0].startswith("-") else "-" + labels[0]
+        got = apply_conversion(basis, target, vec)
+        if got != ref(a, target, vec):
+            problems.append(Problem("C10/edited/mapping", f"after an in-place edit of the target entry {key} the conversion does not follow the new labels"))
+        saved = labels[-1]
+        if len(labels) >= 2:
+            labels[-1] = labels[0].lstrip("-")  # duplicate label, same length
+            try:
+                apply_conversion(basis, target, vec)
+                problems.append(Problem("C10/edited/corruption_accepted", f"in-place duplicated label in entry {key} accepted"))
+            except Exception:  # noqa: BLE001 - rejection is what the statement asks for
+                pass
+            labels[-1] = saved
+    except Exception as exc:  # noqa: BLE001
+        problems.append(Problem("C10/edited/exception", f"{exc!r}"))
+    for missing in sorted(set(segs)):
+        partial = {k: v for k, v in b.items() if k != missing}
+        try:
+            apply_conversion(basis, partial, vec)
+            problems.append(Problem("C10/omitted_key/accepted", f"target conventions without an entry for shell type {missing} accepted"))
+            break
+        except Exception:  # noqa: BLE001
+            pass
     return problems
 
 
